@@ -39,7 +39,9 @@ def checks_for(h):
             c |= {"C15"}
         elif "/io/" in f:
             c |= {"C10", "C11"}
-        elif "/flux_analysis/" in f or "/sampling/" in f:
+        elif "/sampling/" in f:
+            c |= {"C16", "C14"}
+        elif "/flux_analysis/" in f:
             c |= {"C05", "C13", "C14", "C06"}
         elif "/core/solution" in f:
             c |= {"C04"}
